@@ -23,7 +23,8 @@ REPO = os.environ.get("COCLS_REPO", "/repo")
 LEAN = os.path.join(VERIF, "lean")
 BUILD = os.path.join(VERIF, "build")
 REPLAYS = os.path.join(VERIF, "replays")
-EVIDENCE = os.path.join(VERIF, "evidence")
+# (a run against a scratch tree — tools/run_seeded.py — must not overwrite the evidence of the real tree)
+EVIDENCE = os.environ.get("VERIF_EVIDENCE_DIR") or os.path.join(VERIF, "evidence")
 CORPUS = os.path.join(VERIF, "corpus")
 NCPU = max(1, min(16, os.cpu_count() or 4))
 
